@@ -672,12 +672,16 @@ func (obj *SparseInt8Matrix) JointIterator(b ConstMatrix) MatrixJointIterator {
   return obj.JOINT_ITERATOR(b)
 }
 func (obj *SparseInt8Matrix) ITERATOR() *SparseInt8MatrixIterator {
-  r := SparseInt8MatrixIterator{*obj.values.ITERATOR(), obj}
+  // start at the first element of the (possibly sliced) matrix
+  k := obj.rowOffset*obj.colMax + obj.colOffset
+  r := SparseInt8MatrixIterator{*obj.values.ITERATOR_FROM(k), obj}
+  r.clip()
   return &r
 }
 func (obj *SparseInt8Matrix) ITERATOR_FROM(i, j int) *SparseInt8MatrixIterator {
   k := obj.index(i, j)
   r := SparseInt8MatrixIterator{*obj.values.ITERATOR_FROM(k), obj}
+  r.clip()
   return &r
 }
 func (obj *SparseInt8Matrix) JOINT_ITERATOR(b ConstMatrix) *SparseInt8MatrixJointIterator {
@@ -698,6 +702,28 @@ type SparseInt8MatrixIterator struct {
 }
 func (obj *SparseInt8MatrixIterator) Index() (int, int) {
   return obj.m.ij(obj.SparseInt8VectorIterator.Index())
+}
+func (obj *SparseInt8MatrixIterator) Ok() bool {
+  if !obj.SparseInt8VectorIterator.Ok() {
+    return false
+  }
+  // stop after the last row of a sliced matrix
+  i, _ := obj.Index()
+  return i < obj.m.rows
+}
+func (obj *SparseInt8MatrixIterator) Next() {
+  obj.SparseInt8VectorIterator.Next()
+  obj.clip()
+}
+// skip entries of the storage that are not within the columns of a
+// sliced matrix
+func (obj *SparseInt8MatrixIterator) clip() {
+  for obj.Ok() {
+    if _, j := obj.Index(); j >= 0 && j < obj.m.cols {
+      break
+    }
+    obj.SparseInt8VectorIterator.Next()
+  }
 }
 func (obj *SparseInt8MatrixIterator) Clone() *SparseInt8MatrixIterator {
   return &SparseInt8MatrixIterator{*obj.SparseInt8VectorIterator.Clone(), obj.m}
